@@ -867,6 +867,13 @@ pub fn check<P: Prop>(o: &CheckOpts) -> i32 {
         all.sum.sim_ns as f64 / 1e9
     );
 
+    // thorough tier: determinism proof on a sample of run indices (three process layouts)
+    let mut det: Option<(i32, u64, u64, u64)> = None;
+    if o.thorough && confirmed.is_empty() && o.runs.is_none() {
+        let n = P::determinism_runs();
+        let (code, bad, ab) = determinism_detail::<P>(o.seed, o.thorough, n);
+        det = Some((code, bad, ab, n));
+    }
     if o.write_evidence {
         let mut samples = all.sum.samples.clone();
         if samples.is_empty() {
@@ -899,6 +906,7 @@ pub fn check<P: Prop>(o: &CheckOpts) -> i32 {
                 "panic_samples": all.sum.panic_samples,
                 "known_findings_hit": all.sum.known.iter().map(|(k, v)| json!({"id": k, "runs": v.0, "example": v.1})).collect::<Vec<_>>(),
                 "stopped_early": all.sum.stopped_early,
+                "determinism_proof": det.map(|(c, bad, ab, n)| json!({"runs": n, "process_layouts": [16, 1, 5], "mismatches": bad, "runs_aborted_in_some_layout": ab, "ok": c == 0})),
                 "harness_errors": all.harness.len() + nonrepro.len(),
                 "workers": workers,
                 "bounds": P::bounds(o.thorough),
@@ -920,6 +928,12 @@ pub fn check<P: Prop>(o: &CheckOpts) -> i32 {
     }
     if !all.harness.is_empty() || !nonrepro.is_empty() {
         return 2;
+    }
+    if let Some((c, bad, _, _)) = det {
+        if c != 0 {
+            println!("harness error: determinism proof failed ({} mismatches)", bad);
+            return 2;
+        }
     }
     if all.sum.runs == 0 {
         println!("harness error: no run completed");
@@ -966,6 +980,11 @@ pub fn determinism_worker<P: Prop>(verif_seed: u64, thorough: bool, from: u64, t
 }
 
 pub fn determinism<P: Prop>(verif_seed: u64, thorough: bool, n: u64) -> i32 {
+    determinism_detail::<P>(verif_seed, thorough, n).0
+}
+
+/// (exit code, mismatches, runs aborted in some layout)
+pub fn determinism_detail<P: Prop>(verif_seed: u64, thorough: bool, n: u64) -> (i32, u64, u64) {
     let exe = std::env::current_exe().unwrap();
     let run_cfg = |chunks: u64| -> Option<BTreeMap<u64, String>> {
         let per = (n + chunks - 1) / chunks;
@@ -1086,14 +1105,14 @@ pub fn determinism<P: Prop>(verif_seed: u64, thorough: bool, n: u64) -> i32 {
                 aborted
             );
             if bad == 0 {
-                0
+                (0, 0, aborted)
             } else {
-                2
+                (2, bad, aborted)
             }
         }
         _ => {
             println!("determinism: could not run workers");
-            2
+            (2, 0, 0)
         }
     }
 }
